@@ -1325,3 +1325,254 @@ Proof.
   - intros i _ Hi. destruct i as [|[|i]]; simpl; try reflexivity. exfalso. apply Hi. left. reflexivity.
   - reflexivity.
 Qed.
+
+(* ================================================================== *)
+(* Part 8: the dense leaf maps — swap-last erase and the record of structural leaves *)
+
+Lemma last_opt_nth {A} (l : list A) : last_opt l = nth_opt (length l - 1) l.
+Proof.
+  induction l as [|x r IH]; [reflexivity|]. destruct r as [|y r]; [reflexivity|].
+  change (last_opt (x :: y :: r)) with (last_opt (y :: r)). rewrite IH. simpl. rewrite Nat.sub_0_r. reflexivity.
+Qed.
+
+Lemma remove_last_length {A} (l : list A) : length (remove_last l) = length l - 1.
+Proof.
+  induction l as [|x r IH]; [reflexivity|]. destruct r as [|y r]; [reflexivity|].
+  change (remove_last (x :: y :: r)) with (x :: remove_last (y :: r)). simpl length in *. lia.
+Qed.
+
+Lemma remove_last_nth {A} (l : list A) j : j < length l - 1 -> nth_opt j (remove_last l) = nth_opt j l.
+Proof.
+  revert j. induction l as [|x r IH]; intros j H; [simpl in H; lia|]. destruct r as [|y r]; [simpl in H; lia|].
+  change (remove_last (x :: y :: r)) with (x :: remove_last (y :: r)).
+  destruct j; [reflexivity|]. simpl. apply IH. simpl in *. lia.
+Qed.
+
+(* erase by moving the last leaf into the hole: only the hole and the last index change *)
+Lemma remove_leaf_at_frame (l : list leaf) i j : i < length l -> j <> i -> j <> length l - 1 ->
+  nth_opt j (remove_leaf_at i l) = nth_opt j l.
+Proof.
+  intros Hi Hj1 Hj2. unfold remove_leaf_at. rewrite last_opt_nth.
+  destruct (nth_opt (length l - 1) l) as [lastv|] eqn:El.
+  2:{ apply nth_opt_none in El. lia. }
+  destruct (i =? length l - 1) eqn:Ei.
+  - destruct (Nat.lt_ge_cases j (length l - 1)) as [Hlt|Hge].
+    + apply remove_last_nth. exact Hlt.
+    + assert (nth_opt j l = None) by (apply nth_opt_none; lia).
+      assert (nth_opt j (remove_last l) = None) by (apply nth_opt_none; rewrite remove_last_length; lia).
+      congruence.
+  - destruct (Nat.lt_ge_cases j (length l - 1)) as [Hlt|Hge].
+    + rewrite remove_last_nth by (rewrite set_nth_length; exact Hlt).
+      apply nth_opt_set_nth_other. lia.
+    + assert (nth_opt j l = None) by (apply nth_opt_none; lia).
+      assert (nth_opt j (remove_last (set_nth i lastv l)) = None)
+        by (apply nth_opt_none; rewrite remove_last_length, set_nth_length; lia).
+      congruence.
+Qed.
+
+(* ... the moved leaf lands in the hole, and the list is one shorter *)
+Lemma remove_leaf_at_moved (l : list leaf) i : i < length l - 1 ->
+  nth_opt i (remove_leaf_at i l) = nth_opt (length l - 1) l /\ length (remove_leaf_at i l) = length l - 1.
+Proof.
+  intros Hi. unfold remove_leaf_at. rewrite last_opt_nth.
+  destruct (nth_opt (length l - 1) l) as [lastv|] eqn:El.
+  2:{ apply nth_opt_none in El. lia. }
+  destruct (i =? length l - 1) eqn:Ei; [apply Nat.eqb_eq in Ei; lia|].
+  split.
+  - rewrite remove_last_nth by (rewrite set_nth_length; exact Hi).
+    apply nth_opt_set_nth_same. lia.
+  - rewrite remove_last_length, set_nth_length. reflexivity.
+Qed.
+
+Lemma key_index_lt k l i : key_index k l = Some i -> i < length l.
+Proof.
+  revert i. induction l as [|x r IH]; intros i H; simpl in H; [discriminate|].
+  destruct (lf_key x =? k)%Z. { injection H as <-. simpl. lia. }
+  destruct (key_index k r) as [i'|]; [|discriminate]. injection H as <-. simpl. specialize (IH i' eq_refl). lia.
+Qed.
+
+Lemma nth_opt_snoc_other {A} (l : list A) x j : j <> length l -> nth_opt j (l ++ [x]) = nth_opt j l.
+Proof.
+  intros H. destruct (Nat.lt_ge_cases j (length l)) as [Hlt|Hge].
+  - apply nth_opt_app_l. exact Hlt.
+  - assert (nth_opt j l = None) by (apply nth_opt_none; lia).
+    assert (nth_opt j (l ++ [x]) = None) by (apply nth_opt_none; rewrite app_length; simpl; lia). congruence.
+Qed.
+
+(* the invariant of the three reconciliation loops: every dense index NOT recorded as structural
+   still holds the leaf it held before the cycle *)
+Definition rc_frame (L : list leaf) (a : rc) : Prop :=
+  let '(l, sl, stc) := a in
+  (forall j, ~ In j sl -> nth_opt j l = nth_opt j L) /\ (stc = false -> l = L /\ sl = []).
+
+Lemma rc_remove_frame L k a : rc_frame L a -> rc_frame L (rc_remove k a).
+Proof.
+  destruct a as [[l sl] stc]. intros [H1 H2]. unfold rc_remove.
+  destruct (key_index k l) as [i|] eqn:Ek; [|split; assumption].
+  pose proof (key_index_lt k l i Ek) as Hi.
+  split; [|discriminate]. intros j Hj.
+  rewrite in_app_iff in Hj. unfold removed_paths in Hj.
+  rewrite remove_leaf_at_frame; try assumption.
+  - apply H1. tauto.
+  - intros ->. apply Hj. right. destruct (i =? length l - 1); simpl; auto.
+  - intros ->. apply Hj. right. destruct (i =? length l - 1) eqn:E; simpl; auto.
+    apply Nat.eqb_eq in E. left. exact E.
+Qed.
+
+Lemma rc_add_frame L valid sk a : rc_frame L a -> rc_frame L (rc_add valid sk a).
+Proof.
+  destruct a as [[l sl] stc]. destruct sk as [s k]. intros [H1 H2]. unfold rc_add.
+  destruct (negb (valid s)); [split; assumption|].
+  destruct (key_index k l); [split; assumption|].
+  split; [|discriminate]. intros j Hj. rewrite in_app_iff in Hj.
+  rewrite nth_opt_snoc_other; [apply H1; tauto|]. intros ->. apply Hj. right. left. reflexivity.
+Qed.
+
+Lemma rc_mod_frame L live valid sk a : rc_frame L a -> rc_frame L (rc_mod live valid sk a).
+Proof.
+  destruct a as [[l sl] stc]. destruct sk as [s k]. intros [H1 H2]. unfold rc_mod.
+  destruct (negb (live s)); [split; assumption|].
+  destruct (key_index k l) as [i|] eqn:Ek.
+  - pose proof (key_index_lt k l i Ek) as Hi.
+    destruct (negb (valid s)).
+    + split; [|discriminate]. intros j Hj. rewrite in_app_iff in Hj. unfold removed_paths in Hj.
+      rewrite remove_leaf_at_frame; try assumption.
+      * apply H1. tauto.
+      * intros ->. apply Hj. right. destruct (i =? length l - 1); simpl; auto.
+      * intros ->. apply Hj. right. destruct (i =? length l - 1) eqn:E; simpl; auto.
+        apply Nat.eqb_eq in E. left. exact E.
+    + destruct (nth_opt i l) as [lf|]; [|split; assumption].
+      destruct (lf_slot lf =? s); [split; assumption|].
+      split; [|discriminate]. intros j Hj. rewrite in_app_iff in Hj.
+      rewrite nth_opt_set_nth_other; [apply H1; tauto|]. intros ->. apply Hj. right. left. reflexivity.
+  - destruct (negb (valid s)); [split; assumption|].
+    split; [|discriminate]. intros j Hj. rewrite in_app_iff in Hj.
+    rewrite nth_opt_snoc_other; [apply H1; tauto|]. intros ->. apply Hj. right. left. reflexivity.
+Qed.
+
+Lemma fold_left_inv {A B} (P : A -> Prop) (g : A -> B -> A) l : (forall a b, P a -> P (g a b)) ->
+  forall a, P a -> P (fold_left g l a).
+Proof. intros H. induction l as [|b r IH]; intros a Ha; simpl; auto. Qed.
+
+(* reconcile_leaf_state (sparse branch), for ANY store and delta: whatever the delta says, an index
+   that is not recorded in structural_leaves holds the same leaf as before, and "not structural"
+   means nothing moved at all.  This discharges the first hypothesis of reduce_eq_fold_partial
+   for the model's own reconciliation. *)
+Lemma reconcile_sparse_frame st d L :
+  let '(L', sl, stc) := reconcile_sparse st d L in
+  (forall j, ~ In j sl -> nth_opt j L' = nth_opt j L) /\ (stc = false -> L' = L /\ sl = []).
+Proof.
+  unfold reconcile_sparse.
+  set (live := fun s => match find_slot s (st_ent st) with Some _ => true | None => false end).
+  change (rc_frame L (fold_left (fun a sk => rc_mod live live sk a) (d_mod d)
+                       (fold_left (fun a sk => rc_add live sk a) (d_add d)
+                          (fold_left (fun a sk => rc_remove (snd sk) a) (d_rem d) (L, [], false))))).
+  apply (fold_left_inv (rc_frame L)); [intros; apply rc_mod_frame; assumption|].
+  apply (fold_left_inv (rc_frame L)); [intros; apply rc_add_frame; assumption|].
+  apply (fold_left_inv (rc_frame L)); [intros; apply rc_remove_frame; assumption|].
+  split; [reflexivity|auto].
+Qed.
+
+(* ================================================================== *)
+(* Part 9: the model's own reduce_cycle, steady state                   *)
+
+Section Steady.
+Variable f : Z -> Z -> Z.
+Variable cf : cfg.
+Hypothesis f_assoc : forall a b c, f (f a b) c = f a (f b c).
+Hypothesis Hlift : c_lifted cf = true.
+
+(* the dense indices of the leaves whose value ticked *)
+Definition ticked_leaves (d : delta) (L' : list leaf) : list nat :=
+  flat_map (fun sk => match key_index (snd sk) L' with Some i => [i] | None => [] end) (d_mod d).
+
+Lemma cand_mod_eq d L' C combs :
+  concat (map (fun sk : nat * Z => match key_index (snd sk) L' with
+                                   | Some i => live_path C combs i
+                                   | None => []
+                                   end) (d_mod d)) =
+  concat (map (live_path C combs) (ticked_leaves d L')).
+Proof.
+  unfold ticked_leaves. induction (d_mod d) as [|sk r IH]; [reflexivity|].
+  simpl. destruct (key_index (snd sk) L'); simpl; rewrite IH; reflexivity.
+Qed.
+
+(* The model's own reduce_cycle, in the steady state (already primed and published, the
+   collection ticked, no capacity growth), lifted kernel: from the invariant to the invariant, and
+   the published result is the fold over the new live values. *)
+Theorem reduce_cycle_steady st0 st d zero_event s k vals L' sl stc vals' :
+  r_primed s = true -> r_published s = true -> r_cap s = 2 ^ k ->
+  (if c_list cf then true else st_valid st) = true ->
+  tree_inv f cf st0 (r_leaves s) vals k (r_combs s) ->
+  r_pub s = agg_src cf (r_leaves s) (r_combs s)
+              (root_aggregate (c_has_zero cf) (2 ^ k) (length (r_leaves s)) (length (r_combs s))) ->
+  reconcile_sparse st d (r_leaves s) = (L', sl, stc) ->
+  leaf_vals st L' vals' -> length L' <= 2 ^ k ->
+  Nat.max (2 ^ k) (Nat.max (if c_has_zero cf then 2 else 0) (if length L' =? 0 then 0 else bit_ceil (length L'))) = 2 ^ k ->
+  (forall i, ~ In i sl -> ~ In i (ticked_leaves d L') -> nth_opt i vals' = nth_opt i vals) ->
+  let s2 := o_state (reduce_cycle f cf st d true zero_event s) in
+  r_leaves s2 = L' /\ r_cap s2 = 2 ^ k /\
+  r_primed s2 = true /\ r_published s2 = true /\
+  tree_inv f cf st L' vals' k (r_combs s2) /\
+  r_pub s2 = agg_src cf L' (r_combs s2)
+               (root_aggregate (c_has_zero cf) (2 ^ k) (length L') (length (r_combs s2))) /\
+  result_of cf st s2 = spec_result f cf vals'.
+Proof.
+  intros Hpr Hpub Hcap Hav Hinv Hpubsrc Hrec Hvals' Hlen' Hnogrow Hv.
+  pose proof (reconcile_sparse_frame st d (r_leaves s)) as Hframe. rewrite Hrec in Hframe.
+  destruct Hframe as [HL Hns].
+  unfold reduce_cycle. cbn [orb negb]. rewrite Hlift.
+  unfold reconcile. cbn [set_combs destroy_previous r_leaves r_cap r_combs r_bank r_prev r_occ r_primed r_published r_pub r_err].
+  rewrite Hav, Hpr, Hpub. cbn [negb orb]. rewrite Hrec.
+  destruct stc.
+  - (* structural: partial rebuild *)
+    cbn [orb].
+    unfold rebuild_structure. cbn [r_leaves r_cap r_combs r_bank r_prev r_occ r_primed r_published r_pub r_err].
+    rewrite Hcap, Hnogrow, Nat.eqb_refl. cbn [negb orb andb]. rewrite Hlift.
+    destruct (fold_left (phase1_at cf (2 ^ k) (length L'))
+               (sort_desc_unique (concat (map (leaf_path (2 ^ k) (length (r_combs s))) sl)))
+               (r_combs s, [], [])) as [[combs1 cr] rt] eqn:Eph.
+    cbn [rb_state rb_positions r_leaves r_cap r_combs r_primed r_published r_pub].
+    unfold eval_positions. cbn [r_leaves r_cap r_combs]. rewrite Hav. cbn [orb negb andb].
+    rewrite cand_mod_eq.
+    destruct (cycle_partial f cf f_assoc Hlift st0 st k (r_leaves s) vals L' vals' (r_combs s) sl
+                (ticked_leaves d L')
+                (if zero_event && (length L' =? 1) && present combs1 0 then [0] else [])
+                combs1 cr rt Hinv Hvals' Hlen' HL Hv Eph) as [combs2 [log [w [Eev [Tinv Hpres]]]]].
+    unfold visited in Eev. rewrite Eev.
+    cbn [o_state set_combs r_leaves r_cap r_combs r_pub].
+    assert (Hlen12 : length combs1 = length combs2).
+    { destruct Tinv as [_ _ _ [Hl2 _] _].
+      destruct (phase1_spec cf (2 ^ k) (length L') _ _ _ _ _ _ _ Eph) as [Hl1 _].
+      destruct Hinv as [_ _ _ [Hl0 _] _]. lia. }
+    assert (Hp2 : agg_src cf L' combs1 (root_aggregate (c_has_zero cf) (2 ^ k) (length L') (length combs1)) =
+                  agg_src cf L' combs2 (root_aggregate (c_has_zero cf) (2 ^ k) (length L') (length combs2))).
+    { rewrite Hlen12. symmetry. apply agg_src_presence. exact Hpres. }
+    split; [reflexivity|]. split; [reflexivity|]. split; [reflexivity|]. split; [reflexivity|].
+    split; [exact Tinv|]. split; [exact Hp2|].
+    unfold result_of. cbn [r_combs r_pub]. rewrite Hp2.
+    apply (tree_inv_result f cf st L' vals' k combs2 Tinv).
+  - (* no structural change: the leaves are the same, only values ticked *)
+    destruct (Hns eq_refl) as [-> ->].
+    cbn [orb]. cbn [r_leaves r_cap r_combs r_primed r_published r_pub].
+    unfold eval_positions. cbn [r_leaves r_cap r_combs]. rewrite Hav. cbn [orb negb andb].
+    rewrite cand_mod_eq. rewrite Hcap.
+    destruct (cycle_partial f cf f_assoc Hlift st0 st k (r_leaves s) vals (r_leaves s) vals' (r_combs s) []
+                (ticked_leaves d (r_leaves s))
+                (if zero_event && (length (r_leaves s) =? 1) && present (r_combs s) 0 then [0] else [])
+                (r_combs s) [] [] Hinv Hvals' Hlen' HL Hv eq_refl) as [combs2 [log [w [Eev [Tinv Hpres]]]]].
+    unfold visited in Eev. cbn [map concat] in Eev. change (sort_desc_unique []) with (@nil nat) in Eev.
+    cbn [filter app] in Eev. cbn [app]. rewrite Eev.
+    cbn [o_state set_combs r_leaves r_cap r_combs r_pub r_primed r_published].
+    assert (Hlen12 : length (r_combs s) = length combs2).
+    { destruct Tinv as [_ _ _ [Hl2 _] _]. destruct Hinv as [_ _ _ [Hl0 _] _]. lia. }
+    assert (Hp2 : r_pub s = agg_src cf (r_leaves s) combs2
+                    (root_aggregate (c_has_zero cf) (2 ^ k) (length (r_leaves s)) (length combs2))).
+    { rewrite Hpubsrc, Hlen12. symmetry. apply agg_src_presence. exact Hpres. }
+    split; [reflexivity|]. split; [reflexivity|]. split; [reflexivity|]. split; [reflexivity|].
+    split; [exact Tinv|]. split; [exact Hp2|].
+    unfold result_of. cbn [r_combs r_pub]. rewrite Hp2.
+    apply (tree_inv_result f cf st (r_leaves s) vals' k combs2 Tinv).
+Qed.
+
+End Steady.
